@@ -153,3 +153,28 @@ func RenderExpect(w []Expect) string {
 	}
 	return s
 }
+
+// SerializeLong puts a sequence of any length on the wire; with elide the
+// status byte is omitted wherever running status allows it.
+func SerializeLong(seq []SMsg, elide bool) []WireByte {
+	out := make([]WireByte, 0, 3*len(seq))
+	var run byte
+	for i, m := range seq {
+		b := m.Bytes
+		start := 0
+		if elide && m.IsChannel() && run == b[0] {
+			start = 1
+		}
+		for k := start; k < len(b); k++ {
+			out = append(out, WireByte{B: b[k], Msg: i, Complete: k == len(b)-1, First: k == start})
+		}
+		switch {
+		case m.IsChannel():
+			run = b[0]
+		case m.IsRealtime():
+		default:
+			run = 0
+		}
+	}
+	return out
+}
